@@ -1,206 +1,10 @@
-(* G12.Exchange — per-exchange control-flow path model of
-     internal/martian/proxy_conn.go : proxyConn.handle, handleConnectRequest,
-     handleMITM, tunnel, handleUpgradeResponse, writeErrorResponse,
-     writeResponse, skipTraceWroteResponse.
-   Every branch condition of the Go code is an oracle input (record [val],
-   a finite type); [run] produces the list of externally relevant events of
-   ONE pass through proxyConn.handle.  No proofs here. *)
+(* G12.Exchange — the path model (G12.ExchangeCore) instantiated with the shapes of the source
+   as extracted into Tables.v on this run. *)
 From FwdLib Require Import Bytes.
 From G12 Require Import Tables.
+From G12 Require Export ExchangeCore.
 
-(* ---- oracle inputs (all finite) ---- *)
-Inductive rd_t := RdOk | RdEOF | RdErr.                 (* readRequest: request / io.EOF / other error *)
-Inductive rt_t := RtOk | RtErr | RtConnErr.             (* roundTrip: response / error / *connectError (upstream proxy rejected the transport's CONNECT) *)
-Inductive st_t := St2xx | St101 | StOther.              (* class of res.StatusCode as the code tests it: /100==2, ==101, else *)
-Inductive cn_t := CnOk | CnErr | CnRejected.            (* Proxy.Connect: tunnel conn / error / upstream proxy's non-2xx response *)
-Inductive w_t := WOk | WFailEarly | WFailLate.          (* the response write: ok / error before any byte reached the client / error after the head *)
-Inductive after_t := AfPlain | AfTLS | AfPeekErr | AfHandshakeErr | AfH2.  (* handleMITM after the 200 *)
-
-Record val := Build_val {
-  v_rd : rd_t;
-  v_closing : bool;       (* p.closing() right after the request was read *)
-  v_connect : bool;       (* req.Method == CONNECT *)
-  v_mreq_err : bool;      (* p.modifyRequest(req) != nil *)
-  v_mitm : bool;          (* p.shouldMITM(req) *)
-  v_rt : rt_t;
-  v_st : st_t;            (* status class of the upstream response / of the relayed rejection *)
-  v_mres_err : bool;      (* p.modifyResponse(res) != nil for the first response of the exchange *)
-  v_rwc : bool;           (* res.Body.(io.ReadWriteCloser) ok, for a 101 *)
-  v_cn : cn_t;
-  v_w : w_t;
-  v_drain_err : bool;     (* drainBuffer(...) != nil *)
-  v_req_close : bool;     (* req.Close, or res.Close already set on the response *)
-  v_after : after_t
-}.
-
-(* ---- events ---- *)
-Inductive src :=
-| SUp        (* the response obtained from the origin / the upstream proxy's own response to the client's CONNECT *)
-| SErr       (* response built by Proxy.errorResponse (forwarder's classifier) *)
-| SConnErr   (* response carried by *connectError (built in OnProxyConnectResponse) *)
-| SConnOK.   (* newConnectResponse: 200 *)
-
-Inductive lab :=
-| LOwn         (* res.Request is the request read from the client *)
-| LTransport.  (* res.Request is http.Transport's internal CONNECT request *)
-
-Inductive ev :=
-| ERead (hasreq : bool)                (* traceReadRequest(req, err); hasreq = (req != nil) *)
-| EModReq                              (* request modifiers ran *)
-| EDial                                (* the upstream side was contacted: p.roundTrip / p.Connect *)
-| EModRes (s : src)                    (* response modifiers ran on response s *)
-| EHead (s : src)                      (* the head of response s reached the client connection *)
-| EBodyEnd                             (* ... and so did all of its body, flushed *)
-| EWriteFail                           (* the write / flush returned an error *)
-| EWrote (s : src) (l : lab) (err : bool)   (* traceWroteResponse(res, err) *)
-| ETunnel                              (* bicopy ran and returned *)
-| EClose                               (* handle returns errClose: the connection is closed *)
-| EKeep.                               (* handle returns nil: next request is read from the same connection *)
-
-Definition st_2xx (s : st_t) : bool := match s with St2xx => true | _ => false end.
-Definition st_101 (s : st_t) : bool := match s with St101 => true | _ => false end.
-
-(* the two shapes of the source the model knows, read from Tables.v *)
-Record flags := Build_flags {
-  fl_defer : bool;      (* the skip test is consulted only for writes whose caller reports the completion later (tunnel, handleMITM) *)
-  fl_rebind : bool;     (* writeErrorResponse binds a *connectError response to the request that was read *)
-  fl_upgrade : bool     (* writeResponse clears res.Close for a 101 (as it does for CONNECT + 2xx) *)
-}.
 Definition table_flags : flags :=
   Build_flags trace_skip_only_when_deferred conn_err_rebinds_request upgrade_clears_close.
-Definition good_flags : flags := Build_flags true true true.
-
-(* skipTraceWroteResponse(res, err) *)
-Definition skip_trace (req_is_connect : bool) (st : st_t) (werr : bool) : bool :=
-  if werr then false
-  else if req_is_connect && st_2xx st then true
-  else if st_101 st then true
-  else false.
-
-(* writeResponse(res).  [defer] = the caller is tunnel / handleMITM, which
-   report the completion themselves after the tunnel.  Tables.trace_skip_only_when_deferred
-   tells which shape the source has: (false) the skip test alone decides,
-   (true) the skip test is consulted only for deferred writes.
-   Returns the events and whether handle must return errClose. *)
-Definition write_resp (fl : flags) (v : val) (defer : bool) (s : src) (l : lab) (st : st_t) : list ev * bool :=
-  let req_is_connect := match l with LOwn => v_connect v | LTransport => true end in
-  let werr := match v_w v with WOk => false | _ => true end in
-  let bytes := match v_w v with
-               | WOk => [EHead s; EBodyEnd]
-               | WFailEarly => [EWriteFail]
-               | WFailLate => [EHead s; EWriteFail]
-               end in
-  let skip := (if fl_defer fl then defer else true) && skip_trace req_is_connect st werr in
-  let tr := if skip then [] else [EWrote s l werr] in
-  (* res.Close: set from req.Close, cleared for CONNECT + 2xx (and, in the repaired shape, for 101).
-     writeResponse returns errClose when res.Close is set even though the write succeeded. *)
-  let res_close := v_req_close v && negb (req_is_connect && st_2xx st) && negb (fl_upgrade fl && st_101 st) in
-  (bytes ++ tr, werr || res_close).
-
-Definition finish (r : list ev * bool) : list ev :=
-  fst r ++ [if snd r then EClose else EKeep].
-
-(* writeErrorResponse(req, err): a *connectError carries its own response,
-   anything else goes through the classifier. *)
-Definition error_path (fl : flags) (v : val) (conn_err : bool) : list ev :=
-  if conn_err then
-    let l := if fl_rebind fl then LOwn else LTransport in
-    EModRes SConnErr :: finish (write_resp fl v false SConnErr l (v_st v))
-  else
-    EModRes SErr :: finish (write_resp fl v false SErr LOwn StOther).
-
-(* tunnel(name, res, crw) followed by `return errClose` in both callers *)
-Definition tunnel (fl : flags) (v : val) (s : src) (st : st_t) : list ev :=
-  let r := write_resp fl v true s LOwn st in
-  if snd r then fst r ++ [EClose]
-  else if v_drain_err v then fst r ++ [EWrote s LOwn true; EClose]
-  else fst r ++ [ETunnel; EWrote s LOwn false; EClose].
-
-(* handleMITM(req) *)
-Definition mitm (fl : flags) (v : val) : list ev :=
-  if v_mres_err v then
-    (* return p.writeResponse(p.errorResponse(req, err)) *)
-    EModRes SConnOK :: finish (write_resp fl v false SErr LOwn StOther)
-  else
-    let r := write_resp fl v true SConnOK LOwn St2xx in
-    if negb (match v_w v with WOk => true | _ => false end) then EModRes SConnOK :: fst r ++ [EClose]
-    else EModRes SConnOK :: fst r ++ [EWrote SConnOK LOwn false] ++
-         match v_after v with
-         | AfPlain | AfTLS => [EKeep]
-         | AfPeekErr | AfHandshakeErr | AfH2 => [EClose]
-         end.
-
-(* one pass through proxyConn.handle *)
-Definition run_with (fl : flags) (v : val) : list ev :=
-  match v_rd v with
-  | RdEOF | RdErr => [ERead false; EClose]
-  | RdOk =>
-    ERead true ::
-    if v_closing v then [EClose] else
-    if v_connect v then
-      EModReq ::
-      if v_mreq_err v then error_path fl v false else
-      if v_mitm v then mitm fl v else
-      EDial ::
-      match v_cn v with
-      | CnErr => error_path fl v false
-      | CnOk =>
-          if v_mres_err v then EModRes SConnOK :: error_path fl v false
-          else EModRes SConnOK :: tunnel fl v SConnOK St2xx
-      | CnRejected =>
-          if v_mres_err v then EModRes SUp :: error_path fl v false
-          else if st_2xx (v_st v) then EModRes SUp :: tunnel fl v SUp St2xx   (* not produced by connectHTTP; kept total *)
-          else EModRes SUp :: finish (write_resp fl v false SUp LOwn (v_st v))
-      end
-    else
-      EModReq ::
-      if v_mreq_err v then error_path fl v false else
-      EDial ::
-      match v_rt v with
-      | RtErr => error_path fl v false
-      | RtConnErr => error_path fl v true
-      | RtOk =>
-          if v_mres_err v then EModRes SUp :: error_path fl v false
-          else if st_101 (v_st v) then
-            (if v_rwc v then EModRes SUp :: tunnel fl v SUp St101
-             else [EModRes SUp; EWrote SUp LOwn true; EClose])
-          else EModRes SUp :: finish (write_resp fl v false SUp LOwn (v_st v))
-      end
-  end.
 
 Definition run (v : val) : list ev := run_with table_flags v.
-
-(* ---- counting ---- *)
-Definition is_read_req (e : ev) : bool := match e with ERead true => true | _ => false end.
-Definition is_wrote (e : ev) : bool := match e with EWrote _ _ _ => true | _ => false end.
-Definition is_wrote_own (e : ev) : bool := match e with EWrote _ LOwn _ => true | _ => false end.
-Definition is_wrote_transport (e : ev) : bool := match e with EWrote _ LTransport _ => true | _ => false end.
-Definition is_head (e : ev) : bool := match e with EHead _ => true | _ => false end.
-Definition count (f : ev -> bool) (l : list ev) : nat := length (filter f l).
-
-Definition src_eqb (a c : src) : bool :=
-  match a, c with SUp, SUp | SErr, SErr | SConnErr, SConnErr | SConnOK, SConnOK => true | _, _ => false end.
-
-Definition wrote_srcs (l : list ev) : list src :=
-  flat_map (fun e => match e with EWrote s _ _ => [s] | _ => [] end) l.
-Definition head_srcs (l : list ev) : list src :=
-  flat_map (fun e => match e with EHead s => [s] | _ => [] end) l.
-
-(* does the exchange end with the connection kept? *)
-Definition keeps (l : list ev) : bool := existsb (fun e => match e with EKeep => true | _ => false end) l.
-
-(* ---- enumeration of all valuations ---- *)
-Definition all_bool := [true; false].
-Definition all_rd := [RdOk; RdEOF; RdErr].
-Definition all_rt := [RtOk; RtErr; RtConnErr].
-Definition all_st := [St2xx; St101; StOther].
-Definition all_cn := [CnOk; CnErr; CnRejected].
-Definition all_w := [WOk; WFailEarly; WFailLate].
-Definition all_after := [AfPlain; AfTLS; AfPeekErr; AfHandshakeErr; AfH2].
-
-Definition all_vals : list val :=
-  flat_map (fun a => flat_map (fun b0 => flat_map (fun c => flat_map (fun d => flat_map (fun e =>
-  flat_map (fun f => flat_map (fun g => flat_map (fun h => flat_map (fun i => flat_map (fun j =>
-  flat_map (fun k => flat_map (fun l => flat_map (fun m => map (fun n =>
-    Build_val a b0 c d e f g h i j k l m n)
-  all_after) all_bool) all_bool) all_w) all_cn) all_bool) all_bool) all_st) all_rt) all_bool) all_bool) all_bool) all_bool) all_rd.
